@@ -21,18 +21,26 @@ NOT_DECIDED = ["VCR `command:` field (raw argv)", "console output formatting bey
 EXPLANATION = ("sanitize_value replaces exactly the values whose key matches a sensitive key or contains a marker (case-insensitively) and leaves every other entry untouched; "
                "prepare_request routes url, headers, cookies and params through the sanitizers iff sanitize is on; sanitize_url is enumerated exhaustively on small URLs.")
 
-Cfg = Global(SAN + "_DEFAULT_SANITIZATION_CONFIG")
-SENSITIVE = ("(lower(k) in config_of(config).keys_to_sanitize or any(m in lower(k) for m in config_of(config).sensitive_markers))")
-R.spec_funcs["config_of"] = lambda it, config: config if config is not None else Cfg.make(it, "cfg")
-Values = OneOf(Str, ListOf(Str, [1]))
+# The configuration is ARBITRARY: any set of sensitive keys, any set of markers, any replacement (so the result holds for the defaults and every customisation).
+# Strings are ABSTRACT (no string theory is needed: the argument is pure congruence): an AbsStr has a lower-cased form and a substring relation.
+R.opaque_classes["AbsStr"] = "spec:AbsStr"
+R.contract("spec:AbsStr.lower", args={"self": Opq("AbsStr")}, returns=Opq("AbsStr"), pure=True, trusted=True, note="E5 str.lower as an uninterpreted function")
+R.contract("spec:AbsStr.__contains__", args={"self": Opq("AbsStr"), "item": Opq("AbsStr")}, returns=Bool, pure=True, trusted=True, note="E5 substring test as an uninterpreted relation")
+R.alias("lower_of", "spec:AbsStr.lower")
+R.alias("has_substring", "spec:AbsStr.__contains__")
+AStr = Opq("AbsStr")
+Cfg = Obj(SAN + "SanitizationConfig", keys_to_sanitize=Seq(AStr, kind="set"), sensitive_markers=Seq(AStr, kind="set"), replacement=AStr)
+SENSITIVE = ("(lower_of(k) in cfg(config).keys_to_sanitize or any(has_substring(lower_of(k), m) for m in cfg(config).sensitive_markers))")
+R.spec_funcs["cfg"] = lambda it, config: config if config is not None else Cfg.make(it, "default_config")
+Values = OneOf(Opq("AbsStr"), ListOf(Opq("AbsStr"), [1]))
 R.contract(
     SAN + "sanitize_value",
     prop="C15",
-    args={"item": KeyedDict(Str, Values, sizes=(0, 1, 2)), "config": NoneT},
+    args={"item": KeyedDict(Opq("AbsStr"), Values, sizes=(0, 1, 2)), "config": Cfg},
     ghost={"sanitized_values": []},
     ensures={
         # credential-bearing entries are replaced by the redaction marker ...
-        "sensitive_entries_redacted": "not isinstance(item, dict) or all(implies(" + SENSITIVE + ", item[k] == config_of(config).replacement or item[k] == [config_of(config).replacement]) for k in item)",
+        "sensitive_entries_redacted": "not isinstance(item, dict) or all(implies(" + SENSITIVE + ", item[k] == cfg(config).replacement or item[k] == [cfg(config).replacement]) for k in item)",
         # ... and turning it on changes exactly that set: everything else is untouched
         "other_entries_untouched": "not isinstance(item, dict) or all(implies(not " + SENSITIVE + ", item[k] == old(dict(item))[k]) for k in item)",
         "no_key_added_or_removed": "length(item) == old(length(item))",
